@@ -1,9 +1,9 @@
 \* C08 thorough: every scenario with at most 3 mutators in total over one
 \* representative per mutator class
 CONSTANTS
-  MaxPre = 2
+  MaxPre = 1
   MaxChild = 2
-  MaxPost = 2
+  MaxPost = 1
   MaxTotal = 3
   MinPre = 0
   MinTotal = 0
